@@ -7,7 +7,7 @@ import XixiKV.Proofs.IterStableCursor
   index untouched); it commutes with creation, with every call, with `admissible`, and maps the
   observation (`Abs.mapV_*`).
 * `Ev`             — an event of an interleaved run: an iterator call or a database write
-  (`HOp`: plain operation, batch operation, `Merge`).
+  (`HOp`: plain operation, batch operation, `Merge`, `Backup`).
 * `transcript`     — the executable run: the state and the iterator evolve, and before/after every
   event the iterator is observed the way `Driver.lean` prints it (`see`: `Valid`, `Key`, and the
   value read through the captured position **in the current state**).
@@ -104,7 +104,7 @@ open XixiKV.Frame XixiKV.Record XixiKV.Index XixiKV.Engine XixiKV.ShardIter
 inductive Ev where
   /-- `Rewind` / `Next` / `Seek k` on the iterator -/
   | call : Call → Ev
-  /-- a plain operation, a batch operation or a `Merge` on the database -/
+  /-- a plain operation, a batch operation, a `Merge` or a `Backup` on the database -/
   | write : HOp → Ev
 
 /-- the iterator calls of a run -/
